@@ -162,7 +162,8 @@ _TASK = None  # (factory, fn, setup): set in the parent before forking, so closu
 
 
 def _worker(args):
-    (shard, nshards, limit, recheck_n, only_first) = args
+    (shard, nshards, limit, recheck_n, only_first) = args[:5]
+    every, rest = args[5] if len(args) > 5 else (1, 0)
     factory, fn, setup = _TASK
     agg = Agg()
     t0 = time.process_time()
@@ -177,6 +178,8 @@ def _worker(args):
             it = itertools.islice(it, shard, None, nshards)
             idxs = itertools.count(shard, nshards)
         for idx, case in zip(idxs, it):
+            if every > 1 and (idx // nshards) % every != rest:
+                continue
             try:
                 res = guarded(fn, case, limit)
             except (HarnessError, MemoryError, KeyboardInterrupt):
@@ -224,7 +227,7 @@ class Ctx:
         self.divergences = []
 
     # ------------------------------------------------------------------ exploration
-    def explore(self, name, factory, fn, setup=None, jobs=None, limit=None, recheck=True):
+    def explore(self, name, factory, fn, setup=None, jobs=None, limit=None, recheck=True, custom=True):
         """Enumerate factory() completely, sharded over a fork pool; fn(case) -> res dict."""
         jobs = jobs or self.jobs
         limit = limit or self.limit
@@ -261,7 +264,48 @@ class Ctx:
               f"({time.time() - t:.1f}s)", flush=True)
         part.digests = {}
         self.agg.merge(part)
+        if custom and not os.environ.get("VERIF_NO_CUSTOM"):
+            self._explore_custom(name, factory, fn, setup, jobs, limit)
         return part
+
+    def _explore_custom(self, name, factory, fn, setup, jobs, limit):
+        """The same space once more under the 'registered subclasses' configuration (mc/custom.py): a seed-rotated slice
+        (quick: every 8th case, thorough: every 4th)."""
+        from mc import custom as _custom
+        every = 8 if self.quick else 4
+        t = time.time()
+
+        def setup2():
+            if setup:
+                setup()
+            _custom.install()
+        global _TASK
+        _TASK = (factory, fn, setup2)
+        tasks = [(i, jobs, limit, 0, None, (every, self.seed % every)) for i in range(jobs)]
+        ctxm = mp.get_context("fork")
+        part = Agg()
+        with ctxm.Pool(jobs) as pool:
+            for status, payload in pool.imap_unordered(_worker, tasks):
+                if status != "OK":
+                    raise HarnessError(f"worker crashed in {name} [registered subclasses]:\n{payload}")
+                part.merge(payload)
+        # failures of this pass carry the configuration in their class and in the replay file
+        renamed = {}
+        for (kind, key), slot in part.fails.items():
+            for w in slot["witnesses"]:
+                w["config"] = "registered-subclasses"
+                if kind == "V":
+                    w["cls"] = w["cls"] + " [registered subclasses]"
+            renamed[(kind, key if kind == "K" else key + " [registered subclasses]")] = slot
+        part.fails = renamed
+        self.parts.append({"space": name + " [registered subclasses]", "cases": part.evaluations, "states": len(part.states) + part.bulk_states,
+                           "transitions": part.transitions, "nontrivial": len(part.nontrivial) + part.bulk_nontrivial,
+                           "outcomes": len(part.outcomes), "timeouts": part.timeouts, "slice": f"every {every}th case",
+                           "wall_s": round(time.time() - t, 2)})
+        print(f"[{self.prop}] {name} [registered subclasses, every {every}th case]: cases={part.evaluations} "
+              f"fails={sum(s['count'] for s in part.fails.values())} ({time.time() - t:.1f}s)", flush=True)
+        part.digests = {}
+        self.agg.merge(part)
 
     def absorb(self, name, case, res):
         """Feed one result produced by a check's own explicit-state search (in-process)."""
@@ -311,7 +355,10 @@ class Ctx:
                 "samples": samples,
                 "evaluations": a.evaluations,
                 "distinct_nontrivial": len(a.nontrivial) + a.bulk_nontrivial,
-                "rule": self.rule,
+                "rule": self.rule + (" CONFIGURATIONS: every space enumerated by the engine is run a second time with all classes of "
+                                     "component_factory and types_factory replaced by user subclasses that override nothing (mc/custom.py) - "
+                                     f"a seed-rotated slice, every {8 if self.quick else 4}th case; the checks keep building their trees from the plain classes, so "
+                                     "plain and registered classes meet." if any("[registered subclasses]" in p_.get("space", "") for p_ in self.parts) else ""),
                 "bounds": self.bounds,
                 "exhaustive": bool(self.exhaustive),
                 "distinct_outcomes": len(a.outcomes),
@@ -382,6 +429,10 @@ def write_replay(prop, key, fail, count):
             "observed": jsonable(fail.get("observed")), "note": fail.get("note", ""),
             "how_to_replay": f"cd /verif && ./check {prop} --replay <this file>",
             "unit_test": fail.get("unit_test", "")}
+    if fail.get("config"):
+        body["config"] = fail["config"]
+        body["unit_test"] = body["unit_test"].replace("from mc.checks import", "from mc import custom; custom.install()\nfrom mc.checks import", 1)
+        fail = dict(fail, unit_test=body["unit_test"])
     hid = hashlib.sha1(json.dumps(body, sort_keys=True).encode()).hexdigest()[:12]
     path = os.path.join(d, f"{hid}.json")
     with open(path, "w") as f:
